@@ -150,8 +150,15 @@ class C07Check(Check):
         o = rng.fork("overlap")
         if subject.startswith("SAW:") and subject[4:] in OVERLAP_INNER and o.chance(0.5):
             j = o.randrange(0, len(cycles))
+            other = self._gen_cycle(o, o, n, na, subject)
+            if o.chance(0.5):
+                # the same request for another availability scenario (same shapes: shared scratch buffers would collide)
+                other = dict(copy.deepcopy(cycles[j]), offline=other["offline"], blocked=other["blocked"])
+                other.pop("overlap", None)
+            # the second caller may hold a label matrix of its own (same shape, more labels)
+            other["y_reveal"] = [[i, a] for i in range(n) for a in range(na) if o.chance(0.3)] if o.chance(0.5) else []
             cycles[j]["overlap"] = {
-                "cyc": self._gen_cycle(o, o, n, na, subject),
+                "cyc": other,
                 "first": o.pick([0, 1]),
                 "switches": {str(r): sorted({int(round(10 ** o.uniform(0.3, 3.6))) for _ in range(o.pick([0, 1, 1, 2, 4]))}) for r in (0, 1)},
             }
@@ -224,11 +231,12 @@ class C07Check(Check):
         except Exception as e:
             return ctx.result(sig=subj + "|ctor", extra={"aborted": True, "notes": [repr(e)]})
         X = np.array(sc["X"], dtype=float)
-        y = y_matrix(sc["y0"])
+        y = y_main = y_matrix(sc["y0"])
         n, na = y.shape
         np.random.seed(sc.get("run_seed", 0) % (2**32))
         done_cycles = 0
-        def prep(cyc):
+        def prep(cyc, y=None):
+            y = y_main if y is None else y
             cand_arg, ann_arg, A, rows = self.availability(cyc, y, n, na)
             if cyc["avail"] == "bool" and cyc.get("mask_dtype", "bool") != "bool" and ann_arg is not None:
                 # the availability mask as 0/1 integers or floats (array-like of truth values)
@@ -390,11 +398,11 @@ class C07Check(Check):
             except Exception as e:
                 return ("exc", e)
 
-        def run_overlapping(calls, yenc, ov):
+        def run_overlapping(calls, yencs, ov):
             from .parsim import SIM, ThreadSched
 
             SIM.ctx, SIM.trace, SIM.steps = ctx, [], 0
-            funcs = [(lambda c=c: qs.query(X, yenc, **c)) for c in calls]
+            funcs = [(lambda c=c, ye=ye: qs.query(X, ye, **c)) for c, ye in zip(calls, yencs)]
             order = [0, 1] if ov.get("first", 0) == 0 else [1, 0]
             sched = ThreadSched(funcs, order, ov.get("switches") or {}, fuel=FUEL)
             try:
@@ -418,7 +426,13 @@ class C07Check(Check):
             if P is None:
                 continue
             ov = cyc.get("overlap") if subj == "SingleAnnotatorWrapper" else None
-            P2 = prep(ov["cyc"]) if ov else None
+            y2 = None
+            if ov:
+                y2 = y.copy()
+                for i, a in ov["cyc"].get("y_reveal") or []:
+                    if i < n and a < na:
+                        y2[i, a] = sc["truth"][i][a]
+            P2 = prep(ov["cyc"], y2) if ov else None
             yenc = enc_matrix(y, bool(sc.get("str_labels")))
             if P2 is None:
                 outcome = run_call(P["call"], yenc)
@@ -427,7 +441,7 @@ class C07Check(Check):
                 # two caller threads share the strategy object; the scheduler decides who runs (seeded pre-emption
                 # at task-local line counts); every call is judged against its OWN arguments
                 ctx.probe("overlapping_calls")
-                outs = run_overlapping([P["call"], P2["call"]], yenc, ov)
+                outs = run_overlapping([P["call"], P2["call"]], [yenc, enc_matrix(y2, bool(sc.get("str_labels")))], ov)
                 pairs = judge(t, cyc, P, outs[0], " (overlapping call 0)")
                 if pairs is not None and judge(t, ov["cyc"], P2, outs[1], " (overlapping call 1)") is None:
                     pairs = None
@@ -484,8 +498,9 @@ class C07Check(Check):
                 del c["cycles"][j]
                 yield c
         n = len(sc["X"])
+        has_ov = any(cy.get("overlap") for cy in cyc)  # (the nested call's index sets are not re-numbered: keep the pool)
         for i in range(n - 1, -1, -1):
-            if n > 2:
+            if n > 2 and not has_ov:
                 c = copy.deepcopy(sc)
                 for k in ("X", "y0", "truth"):
                     del c[k][i]
@@ -498,7 +513,7 @@ class C07Check(Check):
                         del ap[i]  # one row of estimates per sample
                 yield c
         na = len(sc["y0"][0])
-        if na > 1:
+        if na > 1 and not has_ov:
             c = copy.deepcopy(sc)
             for k in ("y0", "truth"):
                 c[k] = [r[:-1] for r in c[k]]
